@@ -33,6 +33,78 @@ fn nthreads() -> usize {
 }
 
 /// Runs every seq configuration of a property and merges the reports.
+/// Cross-alphabet pass: the quick-tier configurations of the sequential properties other than
+/// `prop`, judged by `prop`'s clauses.  Returns (evidence rows, states, transitions, executions).
+fn cross_pass(prop: &'static str, violations: &mut Vec<Violation>, mach: &mut Option<String>) -> (Vec<Value>, u64, u64, u64) {
+    let mut cross: Vec<Value> = vec![];
+    let (mut states, mut transitions, mut executions) = (0u64, 0u64, 0u64);
+    for cfg in props::foreign_cfgs(prop) {
+        let rep = seq::explore_seq(&cfg, nthreads(), 0);
+        if let Some(e) = &rep.machinery_error {
+            *mach = Some(format!("{}: {}", cfg.name, e));
+        }
+        states += rep.states;
+        transitions += rep.transitions;
+        executions += rep.executions;
+        cross.push(json!({
+            "config": cfg.name,
+            "alphabet_size": cfg.alphabet.len(),
+            "depth_completed": rep.depth_reached,
+            "capped": rep.capped,
+            "states": rep.states,
+            "transitions": rep.transitions,
+            "owned_clause_hits": rep.owned_clause_hits,
+            "foreign_discrepancies": rep.foreign,
+        }));
+        for f in rep.found {
+            if violations.iter().any(|v| v.signature == f.signature) {
+                continue;
+            }
+            violations.push(Violation {
+                signature: f.signature.clone(),
+                what: format!("{}: {}  after [{}] (alphabet of {})", f.clause, f.detail, f.hist_text.join(" ; "), cfg.name),
+                replay: json!({
+                    "engine": "seq",
+                    "tier": "quick",
+                    "config": f.cfg_name,
+                    "history": f.hist.iter().map(|e| json!({"cmd": e.cmd, "choices": e.choices})).collect::<Vec<_>>(),
+                    "history_text": f.hist_text,
+                    "clause": f.clause,
+                    "detail": f.detail,
+                }),
+            });
+        }
+    }
+    (cross, states, transitions, executions)
+}
+
+/// A property without sequential configurations of its own (C10) judged on every sequential alphabet.
+fn check_cross_only(prop: &'static str, tier: Tier) -> CheckOutcome {
+    let t0 = Instant::now();
+    let mut violations = vec![];
+    let mut mach = None;
+    let (cross, states, transitions, executions) = cross_pass(prop, &mut violations, &mut mach);
+    CheckOutcome {
+        property: prop.to_string(),
+        tier: if tier == Tier::Quick { "quick".into() } else { "thorough".into() },
+        level: "model_checking",
+        coverage: json!({
+            "states": states,
+            "transitions": transitions,
+            "traces_validated_against_impl": executions,
+            "evaluations": executions,
+            "distinct_nontrivial": states,
+            "exhaustive": true,
+            "cross_alphabet_pass": cross,
+            "rule": "breadth-first over the command histories of every sequential alphabet (C01 C02 C05 C06 C07 C08 C11 C14 C15, quick depths) on the real decode->handle->encode path; this property's clauses only (no panic, no decode error on a valid request, every command returns - the 30 s watchdog)",
+        }),
+        assumptions: vec!["bounded depth and alphabets as listed".into()],
+        violations,
+        wall_s: t0.elapsed().as_secs_f64(),
+        machinery_error: mach,
+    }
+}
+
 fn check_seq(prop: &'static str, tier: Tier) -> CheckOutcome {
     let t0 = Instant::now();
     let cfgs = props::seq_cfgs(prop, tier);
@@ -49,12 +121,17 @@ fn check_seq(prop: &'static str, tier: Tier) -> CheckOutcome {
         let tree_depth = if tier == Tier::Quick { 2 } else { 3 };
         let rep = if prop == "C19" { pair::explore_pair(cfg, nthreads()) } else { seq::explore_seq(cfg, nthreads(), tree_depth) };
         // binding: spanning-tree histories replayed byte-for-byte through a real TCP server
-        let (bound_n, bound_bad, bound_err) = if prop == "C19" { (0, vec![], None) } else { seq::bind_to_socket(cfg, &rep.tree, nthreads()) };
+        let (bound_n, bound_bad, bound_err) = if prop == "C19" {
+            // every toggled history up to a small depth, pipelined through a real server
+            pair::bind_pipelined(cfg, tree_depth, nthreads())
+        } else {
+            seq::bind_to_socket(cfg, &rep.tree, nthreads())
+        };
         // thorough: the canonicalisation argument is checked, not assumed - the same configuration
         // is explored with exact (un-normalised) fingerprints and with normalised ones at a common
         // depth; the sets of violated signatures (owned and foreign) must be equal
         if tier == Tier::Thorough && prop != "C19" {
-            let common = cfg.depth.saturating_sub(2).max(3);
+            let common = cfg.depth.saturating_sub(3).clamp(3, 6);
             let mut a = cfg.clone();
             a.depth = common;
             let mut b = a.clone();
@@ -148,43 +225,11 @@ fn check_seq(prop: &'static str, tier: Tier) -> CheckOutcome {
     // cross-alphabet pass: the alphabets of the other sequential properties, this property's clauses
     let mut cross: Vec<Value> = vec![];
     if prop != "C19" {
-        for cfg in props::foreign_cfgs(prop) {
-            let rep = seq::explore_seq(&cfg, nthreads(), 0);
-            if let Some(e) = &rep.machinery_error {
-                mach = Some(format!("{}: {}", cfg.name, e));
-            }
-            states += rep.states;
-            transitions += rep.transitions;
-            executions += rep.executions;
-            cross.push(json!({
-                "config": cfg.name,
-                "alphabet_size": cfg.alphabet.len(),
-                "depth_completed": rep.depth_reached,
-                "capped": rep.capped,
-                "states": rep.states,
-                "transitions": rep.transitions,
-                "owned_clause_hits": rep.owned_clause_hits,
-                "foreign_discrepancies": rep.foreign,
-            }));
-            for f in rep.found {
-                if violations.iter().any(|v| v.signature == f.signature) {
-                    continue;
-                }
-                violations.push(Violation {
-                    signature: f.signature.clone(),
-                    what: format!("{}: {}  after [{}] (alphabet of {})", f.clause, f.detail, f.hist_text.join(" ; "), cfg.name),
-                    replay: json!({
-                        "engine": "seq",
-                        "tier": "quick",
-                        "config": f.cfg_name,
-                        "history": f.hist.iter().map(|e| json!({"cmd": e.cmd, "choices": e.choices})).collect::<Vec<_>>(),
-                        "history_text": f.hist_text,
-                        "clause": f.clause,
-                        "detail": f.detail,
-                    }),
-                });
-            }
-        }
+        let (c, st, tr, ex) = cross_pass(prop, &mut violations, &mut mach);
+        cross = c;
+        states += st;
+        transitions += tr;
+        executions += ex;
     }
     let coverage = json!({
         "states": states,
@@ -236,7 +281,7 @@ fn replay(path: &str) -> i32 {
             let tier = if v["tier"].as_str() == Some("thorough") { Tier::Thorough } else { Tier::Quick };
             let mut cfgs = props::seq_cfgs(prop, tier);
             if v["config"].as_str().map(|c| c.contains('@')).unwrap_or(false) {
-                if let Some(p) = props::SEQ_PROPS.iter().find(|p| **p == prop) {
+                if let Some(p) = props::SEQ_PROPS.iter().chain(["C10"].iter()).find(|p| **p == prop) {
                     cfgs = props::foreign_cfgs(p);
                 }
             }
@@ -411,7 +456,12 @@ fn main() {
                     report::merge("C08", &t, vec![("sequential_histories", a), ("delete_vs_concurrent_commands_all_schedules", b)])
                 }
                 "C09" => check_c09::check(tier, nthreads()),
-                "C10" => check_c10::check(tier, nthreads()),
+                "C10" => {
+                    let a = check_c10::check(tier, nthreads());
+                    let b = check_cross_only("C10", tier);
+                    let t = a.tier.clone();
+                    report::merge("C10", &t, vec![("header_boundary_grid", a), ("command_histories_of_every_sequential_alphabet", b)])
+                }
                 "C11" => {
                     let a = check_seq("C11", tier);
                     let t0 = Instant::now();
